@@ -1,5 +1,6 @@
 // main.cpp — worker loop, isolated execution, shrinking, replay files.
 #include "core.hpp"
+#include "corpus.hpp"
 #include <unistd.h>
 #include <fcntl.h>
 #include <signal.h>
@@ -90,6 +91,13 @@ static Outcome classify_death(const std::string &prop, int status, const std::st
   return o;
 }
 
+struct InExec { InExec() { g_in_exec = true; } ~InExec() { g_in_exec = false; } };
+// generation with the corpus guard: when producing a link killed the probe process, the run is about that link and nothing else
+static Plan gen_guarded(Engine *e, const GenCfg &cfg) {
+  g_ref_crash_seen = false; Plan p = e->gen(cfg);
+  if (g_ref_crash_seen) { Rec lr; lr.type = "link"; g_ref_crash_recipe.to(lr); g_stats.inc("corpus.runs_replaced_by_refcrash_plan"); g_ref_crash_seen = false; return e->refcrash_plan(cfg, lr); }
+  return p;
+}
 static Outcome exec_isolated(Engine *e, const Plan &plan, const std::string &prop) {
   e->prepare(plan);
   int pfd[2]; if (pipe(pfd)) { perror("pipe"); __real__exit(2); }
@@ -101,7 +109,7 @@ static Outcome exec_isolated(Engine *e, const Plan &plan, const std::string &pro
     close(pfd[0]); g_result_fd = pfd[1];
     int efd = open(errpath.c_str(), O_WRONLY | O_CREAT | O_TRUNC, 0666); if (efd >= 0) { dup2(efd, 2); close(efd); }
     signal(SIGPROF, on_prof); watchdog_arm(g_cpu_budget);
-    Outcome o = e->exec(plan);
+    InExec inexec; Outcome o = e->exec(plan);
     std::string d = o.detail; for (auto &ch : d) if (ch == '\n') ch = '|';
     std::string l = "D " + d + "\n" + o.line() + "\n"; ssize_t r = write(pfd[1], l.data(), l.size()); (void)r;
     __real__exit(0);
@@ -237,7 +245,7 @@ int main(int argc, char **argv) {
     for (auto &r : all.recs) { if (r.type == "engine") engine = r.s("name"); else if (r.type == "expect") expect = r; else p.recs.push_back(r); }
     Engine *e = engine_by_name(engine);
     const Rec *meta = p.first("meta"); std::string prop = meta ? meta->s("prop") : "C00";
-    if (flag(argc, argv, "--inproc")) { signal(SIGPROF, on_prof); watchdog_arm(g_cpu_budget); e->prepare(p); Outcome o = e->exec(p); printf("REPLAY %s\n", o.line().c_str()); if (!o.detail.empty()) printf("DETAIL %s\n", o.detail.c_str()); return o.violation ? 1 : 0; }
+    if (flag(argc, argv, "--inproc")) { signal(SIGPROF, on_prof); watchdog_arm(g_cpu_budget); e->prepare(p); InExec inexec; Outcome o = e->exec(p); printf("REPLAY %s\n", o.line().c_str()); if (!o.detail.empty()) printf("DETAIL %s\n", o.detail.c_str()); return o.violation ? 1 : 0; }
     Outcome o = exec_isolated(e, p, prop);
     printf("REPLAY %s\n", o.line().c_str());
     if (o.violation && !o.detail.empty()) { std::string d = o.detail.substr(0, 1500); printf("DETAIL %s\n", d.c_str()); }
@@ -253,7 +261,7 @@ int main(int argc, char **argv) {
   if (cmd == "gen") {
     uint64_t r = strtoull(arg(argc, argv, "--run", "0").c_str(), nullptr, 10);
     cfg.seed = mix64(cfg.master, r); std::string rs = arg(argc, argv, "--runseed", ""); if (!rs.empty()) cfg.seed = strtoull(rs.c_str(), nullptr, 10);
-    Plan p = e->gen(cfg); printf("engine name=%s\n", engine.c_str()); fputs(p.str().c_str(), stdout); return 0;
+    Plan p = gen_guarded(e, cfg); printf("engine name=%s\n", engine.c_str()); fputs(p.str().c_str(), stdout); return 0;
   }
   if (cmd != "run") return 2;
 
@@ -280,17 +288,17 @@ int main(int argc, char **argv) {
   signal(SIGPROF, on_prof);
 
   if (triage >= 0) {  // the previous incarnation of this worker died inside run `triage`
-    cfg.seed = mix64(cfg.master, (uint64_t)triage); Plan p = e->gen(cfg);
+    cfg.seed = mix64(cfg.master, (uint64_t)triage); Plan p = gen_guarded(e, cfg);
     if (!handle_violation(e, engine, p, nullptr, cfg.prop, cfg.seed, replaydir, do_shrink)) flaky++; else viols++;
   }
   long r = start >= 0 ? start : worker;
   for (; runs < maxruns && now_s() - t0 < seconds && viols < maxviol && !flaky; r += nworkers) {
     cfg.seed = mix64(cfg.master, (uint64_t)r);
-    Plan p = e->gen(cfg);
-    printf("START %ld %llu\n", r, (unsigned long long)cfg.seed);
+    printf("START %ld %llu\n", r, (unsigned long long)cfg.seed); fflush(stdout);   // before generation: whatever kills the worker from here on belongs to run r
+    Plan p = gen_guarded(e, cfg);
     e->prepare(p);
     watchdog_arm(g_cpu_budget);
-    Outcome o = e->exec(p);
+    Outcome o; { InExec inexec; o = e->exec(p); }
     watchdog_arm(0);
     runs++;
     if (runlog) printf("RUN %ld %016llx %d\n", r, (unsigned long long)o.hash, o.violation ? 1 : 0);
